@@ -107,7 +107,10 @@ def vcut(run, F):
             det = '%d assignment(s) in the loop' % len(asg)
             if okc:
                 gg, en_a = dtree.guards_at(fn.hir, asg[0], env0)
-                conds = dtree.simplify(frozenset(c for c in gg if c not in gc and c != 'VALID(a0)')) or frozenset()
+                flat = []
+                for c in gg:
+                    flat += dtree._split_and(c[1:-1]) if c.startswith('((') or (c.startswith('(') and ' && ' in c) else [c]
+                conds = dtree.simplify(frozenset(c for c in flat if c not in gc and c != 'VALID(a0)')) or frozenset()
                 tgt, val = dtree.canon(asg[0]['ch'][0], en_a), dtree.canon(asg[0]['ch'][1], en_a)
                 # loop pattern `(bound, label)` or `((lo, hi), label)`: the names of the interval
                 # ends and of the label, whatever the destructuring
